@@ -6,6 +6,7 @@ from wsx.core import E, PathAbort, SymInt, s_and
 PROPERTY = "C18"
 BUDGET = {"quick": 900, "thorough": 3000}
 namespaces = hsys.namespaces
+HEAVY_FIRST = ("request:tick", "partial:tick", "tick:request", ":tick:tick")
 real_namespace = common.real_namespace
 GOALS = ["connection refused at the limit and accepted after a close", "idle connection reaped", "busy connection survived beyond channel_timeout",
          "maintenance pass skipped inside cleanup_interval", "connection with a partial request reaped"]
@@ -23,7 +24,7 @@ EVENTS = ("connect", "request", "partial", "finish", "tick")
 def BOUNDS(tier):
     return ("event histories of length <= %d over %r; symbolic channel_timeout, cleanup_interval, clock steps; connection_limit in {3,4}; channel_request_lookahead in {0,1}; "
             "schedules without pre-emption (the property is about histories; interleavings are C04/C05/C11).  The history connect, tick, request, finish is %s."
-            % (4 if tier == "quick" else 5, EVENTS, "left to the thorough tier (cost)" if tier == "quick" else "explored with length 4 only (cost)"))
+            % (4 if tier == "quick" else 5, EVENTS, "left to the thorough tier (cost)" if tier == "quick" else "explored with length 4 only (cost); five events only for histories whose second event is a request or a partial request"))
 
 
 def jobs(tier):
@@ -32,7 +33,10 @@ def jobs(tier):
     for limit in (3, 4):
         for second in EVENTS:
             for third in EVENTS:
-                js.append(dict(name="L%d:connect:%s:%s" % (limit, second, third), limit=limit, prefix=["connect", second, third], n=n))
+                # five events only behind a request or a partial request (busy / half-received connections over longer histories): a five-event
+                # history costs ~220 solver queries per schedule, the full set is beyond the thorough budget
+                nn = n if second in ("request", "partial") else 4
+                js.append(dict(name="L%d:connect:%s:%s" % (limit, second, third), limit=limit, prefix=["connect", second, third], n=nn))
     from wsx import runner
     # the stalled-peer history is the recorded finding D10; it is searched only while it is not recorded
     if "D10-idle-connection-with-stalled-peer-not-reaped" not in [k["id"] for k in runner.load_known("C18") if k.get("kind") == "known"]:
@@ -43,6 +47,8 @@ def jobs(tier):
     # connect, tick, request, finish: ~2500 schedules x ~75 solver queries each (5 min per job): thorough tier only, and not extended by a fifth event
     fin = lambda j: heavy(j) and j.get("force", {}).get("ev0") == EVENTS.index("finish")
     js = [dict(j, n=4) if fin(j) else j for j in js if not (tier == "quick" and fin(j))]
+    js = common.shard(js, "ev0", len(EVENTS), lambda j: j.get("n") == 5)
+    js = common.shard(js, "ev1", len(EVENTS), lambda j: j.get("n") == 5)
     return js
 
 
@@ -95,6 +101,7 @@ def scenario(ns, inp):
                 d = cand[-1]
                 path = "/c%d" % d["id"]
                 if ev == "request":
+                    released[path] = False  # a later request on the same connection blocks again until its own "finish"
                     d["c"].inbox.append(b"GET %s HTTP/1.1\r\n\r\n" % path.encode())
                     d["busy"] = True
                     d["req"] = path
